@@ -45,6 +45,21 @@ type seqItem struct {
 	f    *frame.Frame
 }
 
+// the stream a decoder reads from is part of the environment: a bytes.Reader, a bytes.Buffer (which
+// compressors special-case) and a reader with no other methods
+type plainReader struct{ r io.Reader }
+
+func (p plainReader) Read(b []byte) (int, error) { return p.r.Read(b) }
+
+var sourceKinds = []struct {
+	name string
+	mk   func([]byte) io.Reader
+}{
+	{"reader", func(b []byte) io.Reader { return bytes.NewReader(b) }},
+	{"buffer", func(b []byte) io.Reader { return bytes.NewBuffer(b) }},
+	{"plain", func(b []byte) io.Reader { return plainReader{bytes.NewReader(b)} }},
+}
+
 func main() {
 	c := vlib.New("C03", "model_checking")
 	o := fcheck.Opts(c)
@@ -101,20 +116,34 @@ func main() {
 					c.Violation(map[string]string{"kind": "header-struct-body-length"}, fmt.Sprintf("%s: Header.BodyLength=%d after encoding, wire says %d", cs.Name, f.Header.BodyLength, declared), cs.Name)
 				}
 				// (c) the decoder consumes exactly header + declared length
-				r := bytes.NewReader(append(append([]byte{}, wire...), sentinel...))
-				var err error
-				if pv, site := vlib.Catch(func() { _, err = codec.DecodeFrame(r) }); pv != nil {
-					c.Violation(map[string]string{"kind": "panic", "site": site}, fmt.Sprintf("%s: DecodeFrame panics: %v", cs.Name, pv), cs.Name)
+				bad := false
+				for _, sk := range sourceKinds {
+					r := sk.mk(append(append([]byte{}, wire...), sentinel...))
+					var err error
+					if pv, site := vlib.Catch(func() { _, err = codec.DecodeFrame(r) }); pv != nil {
+						c.Violation(map[string]string{"kind": "panic", "site": site}, fmt.Sprintf("%s: DecodeFrame panics: %v", cs.Name, pv), cs.Name)
+						bad = true
+						break
+					}
+					if err != nil {
+						if sk.name != "reader" {
+							keys["kind"] = "decoder-consumption"
+							keys["source"] = sk.name
+							c.Violation(keys, fmt.Sprintf("%s (%s): decodes from a bytes.Reader but not from a %s holding the frame followed by other bytes: %v", cs.Name, comp, sk.name, err), map[string]interface{}{"case": cs.Name, "compression": comp})
+						}
+						bad = true
+						break // C01
+					}
+					atomic.AddInt64(&validated, 1)
+					rest, _ := io.ReadAll(r)
+					if !bytes.Equal(rest, sentinel) {
+						keys["kind"] = "decoder-consumption"
+						keys["source"] = sk.name
+						c.Violation(keys, fmt.Sprintf("%s (%s, %s): after DecodeFrame %d bytes are left, expected the %d sentinel bytes", cs.Name, comp, sk.name, len(rest), len(sentinel)), map[string]interface{}{"case": cs.Name, "compression": comp})
+					}
+				}
+				if bad {
 					continue
-				}
-				if err != nil {
-					continue // C01
-				}
-				atomic.AddInt64(&validated, 1)
-				rest, _ := io.ReadAll(r)
-				if !bytes.Equal(rest, sentinel) {
-					keys["kind"] = "decoder-consumption"
-					c.Violation(keys, fmt.Sprintf("%s (%s): after DecodeFrame %d bytes are left, expected the %d sentinel bytes", cs.Name, comp, len(rest), len(sentinel)), map[string]interface{}{"case": cs.Name, "compression": comp})
 				}
 				// keep a small alphabet for the sequence check: simplest frame per (version, kind, compressed)
 				ak := fmt.Sprintf("%v|%s|%v|%v", v, fcheck.Kind(cs.Name), cf, comp)
@@ -164,23 +193,25 @@ func main() {
 					stream = append(stream, it.wire...)
 					names = append(names, it.name)
 				}
-				atomic.AddInt64(&seqs, 1)
-				r := bytes.NewReader(stream)
-				for i, it := range seq {
-					got, err := codec.DecodeFrame(r)
-					if err != nil {
-						c.Violation(map[string]string{"kind": "sequence-decode-error", "position": fmt.Sprint(i), "msg": fcheck.Kind(it.name)}, fmt.Sprintf("frames %v written back-to-back: frame %d fails to decode: %v", names, i, err), names)
-						return
+				for _, sk := range sourceKinds {
+					atomic.AddInt64(&seqs, 1)
+					r := sk.mk(append([]byte{}, stream...))
+					for i, it := range seq {
+						got, err := codec.DecodeFrame(r)
+						if err != nil {
+							c.Violation(map[string]string{"kind": "sequence-decode-error", "position": fmt.Sprint(i), "msg": fcheck.Kind(it.name)}, fmt.Sprintf("frames %v written back-to-back: frame %d fails to decode: %v", names, i, err), names)
+							return
+						}
+						want := gen.Clone(it.f).(*frame.Frame)
+						want.Header.Flags = got.Header.Flags
+						if d := gen.Equal(want, got, fcheck.Ignore); d != "" {
+							c.Violation(map[string]string{"kind": "sequence-mismatch", "position": fmt.Sprint(i), "msg": fcheck.Kind(it.name)}, fmt.Sprintf("frames %v written back-to-back: frame %d decodes differently at %s", names, i, d), names)
+							return
+						}
 					}
-					want := gen.Clone(it.f).(*frame.Frame)
-					want.Header.Flags = got.Header.Flags
-					if d := gen.Equal(want, got, fcheck.Ignore); d != "" {
-						c.Violation(map[string]string{"kind": "sequence-mismatch", "position": fmt.Sprint(i), "msg": fcheck.Kind(it.name)}, fmt.Sprintf("frames %v written back-to-back: frame %d decodes differently at %s", names, i, d), names)
-						return
+					if rest, _ := io.ReadAll(r); len(rest) != 0 {
+						c.Violation(map[string]string{"kind": "sequence-leftover"}, fmt.Sprintf("frames %v written back-to-back: %d bytes left over", names, len(rest)), names)
 					}
-				}
-				if r.Len() != 0 {
-					c.Violation(map[string]string{"kind": "sequence-leftover"}, fmt.Sprintf("frames %v written back-to-back: %d bytes left over", names, r.Len()), names)
 				}
 			})
 		}
